@@ -83,7 +83,35 @@ def gen_tree(rng, depth, fam, uni, labs, want_model):
             "c": [c.numerator, c.denominator]}
 
 
+def gen_quad_product(rng):
+    """products / powers of quadratic models whose keys overlap: the degree of the result depends on the squashing rule
+    (x*x = x for booleans, z*z = 1 for spins), which is what the quadratic kinds' key check has to get right"""
+    fam = rng.choice([BOOL, SPIN])
+    kind = rng.choice([k for k in fam if k in QUAD])
+    uni = 'int' if kind.endswith("Matrix") else rng.choice(['int', 'pool'])
+    labs = G.labels(rng, uni, rng.randint(2, 4))
+
+    def leaf():
+        ts, seen = [], set()
+        for _ in range(rng.randint(1, 2)):
+            k = tuple(rng.sample(labs, 2)) if rng.random() < 0.8 else (rng.choice(labs),)
+            if k not in seen:
+                seen.add(k)
+                ts.append((k, G.coef(rng)))
+        return {"t": "model", "kind": kind, "terms": G.jraw(ts)}
+    r = rng.random()
+    if r < 0.6:
+        tree = {"t": "bin", "ip": rng.random() < 0.4, "op": "mul", "a": leaf(), "b": leaf()}
+    elif r < 0.8:
+        tree = {"t": "pow", "ip": rng.random() < 0.4, "a": leaf(), "n": 2}
+    else:
+        tree = {"t": "bin", "ip": False, "op": "mul", "a": {"t": "raw", "terms": leaf()["terms"]}, "b": leaf()}
+    return {"op": "tree", "spin": fam is SPIN, "tree": tree}
+
+
 def gen(rng, i, tier):
+    if rng.random() < 0.08:
+        return gen_quad_product(rng)
     if rng.random() < 0.78:
         fam = rng.choice([BOOL, SPIN])
         uni = rng.choice(['int', 'pool'])
